@@ -362,3 +362,13 @@ Fixpoint enum_sched (fuel : nat) (s : st) (dl : nat) : list (list Z) :=
 Definition cell_enum (ops : list (list Z)) : list (list Z) :=
   let s0 := init ops in
   map (cons 9) (enum_sched 200 s0 (length (thrs s0) - 1)).
+
+(* ---------- real-thread stress engine (harness/stress_cell.cpp) ---------- *)
+(* The harness runs op [30; trials; wkind1; wkind2; rkind; jitter] under uncontrolled threads and only counts
+   [20; lost; dup; wrong; early].  By c02_no_lost_wakeup / c02_at_most_once / c02_not_early every schedule of the model
+   ends with all four counters zero, so that is the model's prediction for every such op; the oracle is the
+   property itself: no waiter lost, none released twice, none read a wrong or a not-ready result. *)
+Definition stress_run (ops : list (list Z)) : list (list Z) :=
+  flat_map (fun op => match op with [30; _; _; _; _; _] => [[20; 0; 0; 0; 0]] | _ => [] end) ops.
+Definition stress_oracle (ops obs : list (list Z)) : bool :=
+  Nat.eqb (length obs) (length (stress_run ops)) && forallb (fun l => list_eqb l [20; 0; 0; 0; 0]) obs.
